@@ -238,21 +238,48 @@ pub const FAMILIES: &[Family] = &[
 ];
 
 pub fn measure(src: &str) -> Result<Vec<(&'static str, usize)>, String> {
+    measure_limited(src, None)
+}
+
+/// Sizes of all stage outputs.  With `prev` (the sizes at k/2) the later stages are skipped as soon
+/// as one stage is more than 12 times its earlier size: the verdict is already decided and the
+/// remaining stages of an exponentially large program would only cost time.
+pub fn measure_limited(src: &str, prev: Option<&Vec<(&'static str, usize)>>) -> Result<Vec<(&'static str, usize)>, String> {
     use printer::Print;
+    let blown = |v: &Vec<(&'static str, usize)>| -> bool {
+        let Some(p) = prev else { return false };
+        let (st, n) = v.last().unwrap();
+        p.iter().find(|x| x.0 == *st).is_some_and(|(_, a)| *n as f64 > 12.0 * (*a).max(1) as f64)
+    };
     let checked = pipeline::front(src).map_err(|e| e.describe())?;
     let core = pipeline::to_core(checked).map_err(|e| e.describe())?;
     let mut v = vec![("source", src.len()), ("core", core.print_to_string(None).len())];
+    if blown(&v) {
+        return Ok(v);
+    }
     let fs = pipeline::focus(core).map_err(|e| e.describe())?;
     v.push(("focused", fs.print_to_string(None).len()));
+    if blown(&v) {
+        return Ok(v);
+    }
     let sh = pipeline::shrink(fs).map_err(|e| e.describe())?;
     v.push(("shrunk", sh.print_to_string(None).len()));
+    if blown(&v) {
+        return Ok(v);
+    }
     let lin = pipeline::linearize(sh).map_err(|e| e.describe())?;
     v.push(("linearized", lin.print_to_string(None).len()));
+    if blown(&v) {
+        return Ok(v);
+    }
     let count = |t: &str, comment: &str| t.lines().filter(|l| !l.trim().is_empty() && !l.trim_start().starts_with(comment)).count();
     match pipeline::x86(lin.clone()) {
         Ok(a) => v.push(("x86_64 instructions", count(&a.text, ";"))),
         Err(e) if e.is_capacity() => {}
         Err(e) => return Err(e.describe()),
+    }
+    if blown(&v) {
+        return Ok(v);
     }
     match pipeline::a64(lin.clone()) {
         Ok(a) => v.push(("aarch64 instructions", count(&a.text, "//"))),
@@ -272,6 +299,10 @@ pub fn run(ctx: &Ctx, acc: &mut Acc) {
         if fi % ctx.nshards != ctx.shard {
             continue;
         }
+        // enough witnesses: exponential families are expensive to keep compiling
+        if acc.violations.len() >= 4 {
+            break;
+        }
         let mut sizes: Vec<Option<Vec<(&'static str, usize)>>> = vec![None; kmax + 1];
         for k in 1..=kmax {
             if !ctx.time_left() {
@@ -280,7 +311,8 @@ pub fn run(ctx: &Ctx, acc: &mut Acc) {
             let src = (fam.make)(k);
             acc.evaluations += 1;
             let t = Instant::now();
-            match measure(&src) {
+            let prev = if k % 2 == 0 { sizes[k / 2].clone() } else { None };
+            match measure_limited(&src, prev.as_ref()) {
                 Ok(m) => {
                     let secs = t.elapsed().as_secs_f64();
                     acc.max("max_compile_ms", (secs * 1000.0) as u64);
@@ -340,7 +372,8 @@ fn judge_shape(acc: &mut Acc, shape: &super::c19gen::Shape, deadline: &dyn Fn() 
         }
         let src = super::c19gen::program(shape, k);
         acc.evaluations += 1;
-        match measure(&src) {
+        let prev = if k % 2 == 0 { sizes.get(&(k / 2)).cloned() } else { None };
+        match measure_limited(&src, prev.as_ref()) {
             Ok(m) => {
                 sizes.insert(k, m);
             }
@@ -383,7 +416,7 @@ pub fn run_random(ctx: &Ctx, acc: &mut Acc) {
     for b in 0..BRANCHES {
         for g in 0..GLUES {
             idx += 1;
-            if idx % ctx.nshards != ctx.shard {
+            if idx % ctx.nshards != ctx.shard || acc.violations.len() >= 4 || !ctx.time_left() {
                 continue;
             }
             let shape = Shape { links: vec![(b, g)] };
@@ -395,7 +428,7 @@ pub fn run_random(ctx: &Ctx, acc: &mut Acc) {
     }
     let mut i = 0u64;
     let max: u64 = if ctx.quick() { 300 } else { 1_000_000 };
-    while ctx.time_left() && i < max {
+    while ctx.time_left() && i < max && acc.violations.len() < 4 {
         let mut rng = crate::rng::Rng::new(ctx.case_seed(i));
         i += 1;
         let shape = Shape::random(&mut rng);
